@@ -218,8 +218,9 @@ def run(prop, tier, seed, replay=None):
                 nmut += 1
         c.extra['truncation_deletion_cases'] = nmut
     if prop == 'C07' and not replay:
-        from checks import args
+        from checks import args, keyvals
         args.phase(c, tier)
+        keyvals.phase(c, tier)
         # linear-size inputs: every one-argument construct nested in itself
         for con in NEST:
             for depth in ((12, 24) if tier == 'quick' else (12, 24, 40)):
